@@ -129,7 +129,7 @@ Definition with_counter (s : mstate) (x : value) (k : Z) : mstate :=
 
 Lemma sim_with_counter ss s x k : sim ss s -> sim ss (with_counter s x k).
 Proof.
-  intros H. destruct H as [Hr Hf Hg Hv Hst Hw Hu]. constructor; cbn [with_counter m_regs m_globals m_frames m_world m_unnamed]; try assumption;
+  intros H. destruct H as [Hr Hf Hg Hv Hst Hw Hu Hdf]. constructor; cbn [with_counter m_regs m_globals m_frames m_world m_unnamed]; try assumption;
   destruct (m_frames s) as [|[p b r|lv d] t]; assumption.
 Qed.
 
@@ -310,7 +310,7 @@ Proof.
   { rewrite Hst. unfold d. destruct (m_stack s) as [|v k]; cbn [truncate_to]; [reflexivity|]. rewrite Z.leb_refl. reflexivity. }
   split; [apply (estep1 im s0 _ _ _ Hf); cbn [Machine.exec i_op I0]; rewrite Hfr; reflexivity|].
   split.
-  { destruct Hs0 as [Hr Hfu Hg Hv Hse Hw Hu]. rewrite Hfr in Hv, Hse. constructor; cbn; assumption. }
+  { destruct Hs0 as [Hr Hfu Hg Hv Hse Hw Hu Hdf]. rewrite Hfr in Hv, Hse. constructor; cbn; assumption. }
   split; [reflexivity|]. unfold fr. change (m_stack s1) with (truncate_to (m_stack s0) d). change (m_frames s1) with r. rewrite Htr, Her. reflexivity.
 Qed.
 
@@ -344,7 +344,7 @@ Proof.
     destruct (c_rval_runs rt mt c (DReg R_RESULT) Hc (plain_ok_result mt c Hc) im ss s x sa fuel Hsim Hcc Ev) as [Hsa [n Hn]]. subst sa.
     set (k := zlength (c_rval rt mt c (DReg R_RESULT))) in *.
     set (s1 := put_vm s (DReg R_RESULT) x k) in *.
-    assert (Hs1 : sim ss s1) by (apply sim_put_reg_hidden; [exact Hsim|reflexivity]).
+    assert (Hs1 : sim ss s1) by (apply sim_put_reg_hidden; [exact Hsim|reflexivity|reflexivity]).
     assert (Hr1 : rf_get (m_regs s1) R_RESULT = Some x) by (unfold s1; cbn [put_vm m_regs]; apply rf_get_set_same).
     pose proof (proj1 simple_no_routine a Ha) as Hnr. rewrite (len_no_routine _ Hnr) in Hfj |- *.
     set (body := c_stmt rt mt false None a) in *.
@@ -375,7 +375,7 @@ Proof.
     destruct (c_rval_runs rt mt c (DReg R_RESULT) Hc (plain_ok_result mt c Hc) im ss s x sa fuel Hsim Hcc Ev) as [Hsa [n Hn]]. subst sa.
     set (k := zlength (c_rval rt mt c (DReg R_RESULT))) in *.
     set (s1 := put_vm s (DReg R_RESULT) x k) in *.
-    assert (Hs1 : sim ss s1) by (apply sim_put_reg_hidden; [exact Hsim|reflexivity]).
+    assert (Hs1 : sim ss s1) by (apply sim_put_reg_hidden; [exact Hsim|reflexivity|reflexivity]).
     assert (Hr1 : rf_get (m_regs s1) R_RESULT = Some x) by (unfold s1; cbn [put_vm m_regs]; apply rf_get_set_same).
     pose proof (proj1 simple_no_routine a Ha) as Hnra. pose proof (proj1 simple_no_routine b Hb) as Hnrb.
     rewrite (len_no_routine _ Hnra) in Hfj |- *. rewrite (len_no_routine _ Hnrb) in Hfj2 |- *.
@@ -445,7 +445,7 @@ Proof.
       destruct (c_rval_runs rt mt c (DReg R_RESULT) Hc (plain_ok_result mt c Hc) im ss1 sx x sa f Hsx HcTx Ev) as [Hsa [n Hn]]. subst sa.
       fold T in Hn. fold kT in Hn.
       set (s2 := put_vm sx (DReg R_RESULT) x kT) in *.
-      assert (Hs2 : sim ss1 s2) by (apply sim_put_reg_hidden; [exact Hsx|reflexivity]).
+      assert (Hs2 : sim ss1 s2) by (apply sim_put_reg_hidden; [exact Hsx|reflexivity|reflexivity]).
       assert (Hr2 : rf_get (m_regs s2) R_RESULT = Some x) by (unfold s2; cbn [put_vm m_regs]; apply rf_get_set_same).
       assert (Hpc2 : m_pc s2 = P0 + 1 + kT) by (unfold s2; cbn [put_vm m_pc]; rewrite Hpcx; reflexivity).
       assert (Hfj2 : fetch im (m_pc s2) = Some (jump JC_IF_FALSE (kB + 2))) by (rewrite Hpc2; exact Hfj).
@@ -531,7 +531,7 @@ Proof.
       assert (HcTx : code_at im (m_pc sx) counter_test) by (rewrite Hpcx; exact HcT).
       destruct (counter_test_steps im sx lv d r c0 go Hfrx Hlvx Epos HcTx) as (res & Et & Hres).
       set (s3 := put_vm sx (DReg R_RESULT) res 4) in *.
-      assert (Hs3 : sim ss1 s3) by (apply sim_put_reg_hidden; [exact Hsx|reflexivity]).
+      assert (Hs3 : sim ss1 s3) by (apply sim_put_reg_hidden; [exact Hsx|reflexivity|reflexivity]).
       assert (Hr3 : rf_get (m_regs s3) R_RESULT = Some res) by (unfold s3; cbn [put_vm m_regs]; apply rf_get_set_same).
       assert (Hpc3 : m_pc s3 = P0 + 1 + kN + 4) by (unfold s3; cbn [put_vm m_pc]; rewrite Hpcx; reflexivity).
       assert (Hfj3 : fetch im (m_pc s3) = Some (jump JC_IF_FALSE (kB + 4 + 2))) by (rewrite Hpc3; exact Hfj).
